@@ -183,6 +183,7 @@ def run(ctx):
             step_start = None
 
     reported = set()
+    per_key = collections.Counter()
     for g in sorted(verd):
         for kind, obl, detail in verd[g]:
             stats[kind] += 1
@@ -198,7 +199,10 @@ def run(ctx):
             first_tok = journal[g - 1].split()
             if first_tok and first_tok[0] in ("cert", "gcert") and first_tok[1].isdigit():
                 hid = int(first_tok[1]) // 10 if first_tok[0] == "cert" else int(first_tok[1]) // 10
-            key = (site, tuple(sorted(tags)))
+            key = (site, tuple(sorted(t for t in tags if not t.startswith("op_"))))
+            per_key[key] += 1
+            if per_key[key] > 3:
+                continue            # one structural class: three replays are enough, the rest is counted
             what = "%s: %s" % (site, detail[:400])
             ctx.violation(what, {"history": hid, "seed": seed, "chain": journal[hdr], "event": lines[:40],
                                   "obligation": obl, "verdict": detail, "site": site, "tags": tags,
@@ -210,6 +214,10 @@ def run(ctx):
         ctx.violation("proof obligation broken: " + b, {"obligation": b}, found_input=False)
 
     lens = {"%s %s" % k: (max(v) if v else 0) for k, v in chain_len.items()}
+    levels = collections.Counter()
+    for g, inf in info.items():
+        if "level" in inf:
+            levels["%s%s" % (("aff", "lin", "cons", "points", "rays", "equal")[int(inf["level"])], "" if inf.get("incl") == "1" else "(cert only)")] += 1
     ctx.cov.update({
         "evaluations": sum(c["steps"] for c in per_op.values()),
         "distinct_nontrivial": nontrivial,
@@ -223,6 +231,8 @@ def run(ctx):
         "by_obligation": {k: v for k, v in sorted(stats.items()) if ":" in k},
         "by_operator": {"%s %s" % k: dict(v) for k, v in sorted(per_op.items())},
         "max_chain_length": lens,
+        "certificate_pairs_decided_at": dict(levels),
+        "mismatch_classes": {"%s %s" % (k[0], ",".join(k[1])): v for k, v in per_key.items()},
         "journal_lines": len(journal),
     })
     ctx.assumptions += [
